@@ -30,7 +30,9 @@ def norm(s):
     s = re.sub(r"F\.attrs\.child\([^()]*\)!\.child_path\.child_path", "CP", s)
     s = re.sub(r"fident\(f\{\}; (Unnamed\()?(Index\{index: )?F\.idx\}?\)?\)", "FBind(DeclPos)", s)
     s = re.sub(r"fident\(f\{\}; F\.member#Unnamed\.0\.index\)", "FBind(Own)", s)
+    s = re.sub(r"fident\(f\{\}; idx\)", "FBind(EmitPos)", s)
     s = re.sub(r"fident\(f\{\}; ATTR\.member!#Unnamed\.0\.index\)", "FBind(That)", s)
+    s = re.sub(r"fident\(([^;()]*); ([^()]*)\)", lambda m_: f"FBind?[{m_.group(1)}]({m_.group(2)})", s)
     s = re.sub(r"ATTR\.member!(#(Named|Unnamed)\.0)?", "That", s)
     s = re.sub(r"F\.member(#(Named|Unnamed)\.0)?", "Own", s)
     s = re.sub(r"‹idx:F\.idx›", "‹DeclPos›", s)
@@ -386,3 +388,5 @@ def run(chk):
     chk.guard("R3", lambda: r3_ghost_lines(chk))
     chk.guard("R4", lambda: r4_as_type(chk))
     chk.guard("R5", lambda: r5_wrapper(chk))
+    from .c05 import import_lookup_contracts
+    chk.guard("R7", lambda: import_lookup_contracts(chk, "R7", ["ghost", "child", "field_attr_core", "has_parent_attr", "has_parameterless_parent_attr", "parameterized_parent_attr", "ghosts_attr", "child_parents_attr"]))
